@@ -21,7 +21,14 @@ the library calls `ast.*` and `DiGraph.add_edge / has_node / ...`.  Private help
           feature_version), is not under a handler that swallows SyntaxError and lets the scan go on without the file, and its
           result itself is what is wrapped for the collector
   C02.R5  converse: import records are created only by the collector; the graph adds an import edge importer -> importee exactly when
-          both are known nodes, distinct (after flattening) and the edge is not present yet - for no other reason is it dropped
+          both are known nodes, distinct (after flattening) and the edge is not present yet - for no other reason is it dropped.
+          Decided twice: symbolically (one opaque record, every path; construction that is first recorded in native collections and
+          materialised later is followed through the collections: c02_sym.OpenInfo) and on constants (`run_r5_samples`: the whole
+          constructor interpreted on 14 sample imports x 4 level limits with a concrete model of the networkx graph, the result read back
+          through `nodes` / `edges` / `parent_child_relationship` and compared with the demanded edge set - a mismatch is a VIOLATION with
+          a concrete counterexample; when the symbolic analysis has no verdict the decision on constants stands in for it)
+  C02.R4  (anchor) a spelling of "importer minus its last `level` components" that the term comparison does not know is decided on
+          concrete importers and levels (`anchor_by_samples`)
 """
 
 from __future__ import annotations
@@ -743,11 +750,26 @@ def run_r5_graph(repo: Repo, res: Result) -> None:
     def entry(it):
         return it.instantiate(g, [[Sym("module", "str")], [R], Sym("level_limit", "optint")], {}, None, None)
 
+    sampled = run_r5_samples(repo)
+    res.analysed["graph_samples"] = sampled[0]
+    if sampled[0] == "bad":
+        res.add("C02.R5", key + " [on constants]", False, sampled[1], sampled[2] or wh, kind="flow")
+
+    stood_in: list = []
+
+    def give_up(detail: str, at: str) -> None:
+        """No symbolic verdict: the decision on constants stands in for it when there is one."""
+        if sampled[0] == "ok" and not stood_in:
+            stood_in.append(detail)
+            res.add("C02.R5", key + " [on constants]", True, f"the symbolic analysis has no verdict ({detail[:200]}); on {len(SAMPLE_IMPORTS)} sample imports and four level limits the graph has exactly the demanded import edges and nodes", wh, kind="flow")
+        elif sampled[0] == "undecided":
+            res.undecide("C02.R5", key, detail, at)
+
     try:
         ex = Explorer(repo, opaque={f"{TYPES_MOD}::get_parent_modules"}, split_calls=True, max_runs=6000)
         runs = ex.explore(entry)
     except Unsupported as u:
-        res.undecide("C02.R5", key, f"the symbolic executor cannot interpret the graph construction: {u.msg}", u.where() or wh)
+        give_up(f"the symbolic executor cannot interpret the graph construction: {u.msg}", u.where() or wh)
         return
     res.analysed["graph_paths"] = len(runs)
 
@@ -900,21 +922,21 @@ def run_r5_graph(repo: Repo, res: Result) -> None:
         drop_bad.append(f"the import edge importer -> importee is not added when {show(at)} = {v} (on a path where both are known, distinct modules and no such edge exists yet, it is added only when {show(at)} = {not v})")
     if ex.fallbacks and (orient_bad or known_bad or drop_bad or not n_edges):
         # a helper could only be treated as an uninterpreted function: what looks like a violation may be an artefact of that
-        res.undecide("C02.R5", key, f"part of the graph construction cannot be interpreted: {sorted(ex.fallbacks)[0]}", wh)
+        give_up(f"part of the graph construction cannot be interpreted: {sorted(ex.fallbacks)[0]}", wh)
         return
     for u in unknown[:1]:
-        res.undecide("C02.R5", key, u, wh)
+        give_up(u, wh)
     if unknown and not n_edges:
         return
     if not any(e.kind == "ext" for r in runs for e in r.effects):
-        res.undecide("C02.R5", key, "the construction never calls a mutator of a networkx graph object the executor recognises (nx.DiGraph())", wh)
+        give_up("the construction never calls a mutator of a networkx graph object the executor recognises (nx.DiGraph())", wh)
         return
     ok = n_edges > 0
     if not ok:
         opaque = [e for r in runs for e in r.effects if e.kind == "ext" and e.name in ("add_edge", "add_edges_from") and any(mentions(x, R) for x in e.args)]
         if opaque:
             # edges are built from the record - through values the executor could not reduce to importer() / importee()
-            res.undecide("C02.R5", key, f"an edge is added between {show(opaque[0].args[0])[:160]} and {show(opaque[0].args[1])[:160] if len(opaque[0].args) > 1 else '...'}: derived from the import record in a way the executor cannot interpret", opaque[0].where or wh)
+            give_up(f"an edge is added between {show(opaque[0].args[0])[:160]} and {show(opaque[0].args[1])[:160] if len(opaque[0].args) > 1 else '...'}: derived from the import record in a way the executor cannot interpret", opaque[0].where or wh)
             return
     res.add("C02.R5", key + " [import edge exists]", ok, f"import edges are added on {n_edges} path(s)" if ok else "no path of the graph construction adds an edge for an import record", wh, nontrivial=False)
     if not ok:
@@ -922,6 +944,108 @@ def run_r5_graph(repo: Repo, res: Result) -> None:
     res.add("C02.R5", key + " [orientation]", not orient_bad, "every import edge runs from imp.importer() to imp.importee() of one record" if not orient_bad else orient_bad[0], edge_where, kind="flow")
     res.add("C02.R5", key + " [both endpoints are known modules]", not known_bad, "an import edge is only added when has_node holds for both endpoints in the same graph state" if not known_bad else known_bad[0], edge_where, kind="dominance")
     res.add("C02.R5", key + " [no other reason to drop an edge]", not drop_bad, "an edge between two known modules is only suppressed as a self-edge or because it is already present" if not drop_bad else drop_bad[0] + ": imports between two known modules silently disappear from the architecture", edge_where, kind="dominance")
+
+
+# --------------------------------------------------------------------------- R5 on samples
+
+SAMPLE_MODULES = ["top", "top.pkg", "top.pkg.mod", "top.pkg.mo", "top.pkg.sub", "top.pkg.sub.deep", "top.pkgx", "top.other", "top.other.leaf", "solo"]
+SAMPLE_IMPORTS = [
+    ("top.pkg.mod", "top.other.leaf"),  # across packages
+    ("top.pkg.mod", "top.pkg.mo"),  # sibling whose name is a string prefix of the importer's
+    ("top.pkg.mod", "top.pkg.sub.deep"),  # into a sibling sub package
+    ("top.pkg", "top.pkg.sub.deep"),  # a package imports a module below itself (not its direct child)
+    ("top.other.leaf", "top.pkg"),  # a package as importee
+    ("top.pkg.mod", "external.lib"),  # not a module of the project
+    ("top.pkg.mod", "top.pkg.mod"),  # itself
+    ("top.pkg.mod", "top.other.leaf"),  # a second time
+    ("solo", "top"),
+    ("top.pkg.sub.deep", "top.pkg"),  # own ancestor: outside the claim
+    ("top.pkg.mod", "top.other"),  # second and third import of one importer
+    ("top.pkg.mod", "top.pkgx"),  # package whose name is a string extension of the importer's package
+    ("top.other", "solo"),
+    ("top.pkg.mo", "top.pkg.mod"),  # importer's name is a string prefix of the importee's
+]
+
+
+def run_r5_samples(repo: Repo) -> tuple[str, str, str]:
+    """The graph construction interpreted on constants (nothing symbolic, the networkx graph modelled concretely), read back through
+    the public API (`nodes`, `edges`, `parent_child_relationship`) and compared with what the property demands for these inputs:
+    an import edge flat(importer) -> flat(importee) exactly for the imports whose ends are known, distinct nodes (imports of an own
+    ancestor, and of a direct child whose parent-child edge takes precedence in today's code, are not judged); no node that is not a
+    module.  ("ok" | "bad" | "undecided", detail, where)"""
+    g = repo.cls(NXGRAPH, "NetworkxGraph")
+    base = repo.cls(TYPES_MOD, "Import")
+    rec_cls = None
+    for c in import_record_classes(repo):
+        init = repo.lookup_method(c, "__init__")
+        if init is not None and len([p for p in init.params]) == 3 and not any(m.is_abstract for m in (repo.lookup_method(c, n) for n in ("importee", "importer", "importee_parent_modules")) if m is not None):
+            rec_cls = c
+            break
+    if rec_cls is None:
+        return "undecided", "no import record class with a constructor (importer, importee)", ""
+
+    def parents(n: str) -> list[str]:
+        parts = n.split(".")
+        return [".".join(parts[:i]) for i in range(1, len(parts))]
+
+    for limit in (None, 1, 2, 0):
+
+        def flat(n: str) -> str:
+            return n if limit is None else ".".join(n.split(".")[: limit + 1])
+
+        def entry(it):
+            recs = [it.instantiate(rec_cls, [a, b], {}, None, None) for a, b in SAMPLE_IMPORTS]
+            for r, (a, b) in zip(recs, SAMPLE_IMPORTS):
+                if it.call(it.getattr_value(r, "importer"), [], {}) != a or it.call(it.getattr_value(r, "importee"), [], {}) != b:
+                    raise Unsupported(f"{rec_cls.name}({a!r}, {b!r}) does not report these as importer() / importee()")
+            gobj = it.instantiate(g, [list(SAMPLE_MODULES), recs, limit], {}, None, None)
+            kind, nodes = it.iterate(it.getattr_value(gobj, "nodes"), g.node, None)
+            kind2, edges = it.iterate(it.getattr_value(gobj, "edges"), g.node, None)
+            if kind != "concrete" or kind2 != "concrete":
+                raise Unsupported("nodes / edges of the constructed graph are not concrete")
+            out = []
+            for e in edges:
+                u, v = e
+                out.append((u, v, it.truth(it.call(it.getattr_value(gobj, "parent_child_relationship"), [u, v], {}))))
+            return list(nodes), out
+
+        ex = Explorer(repo, split_calls=False, max_runs=50)
+        ex.concrete_graph = True
+        try:
+            runs = ex.explore(entry)
+        except Unsupported as u:
+            return "undecided", f"the graph construction cannot be interpreted on constants: {u.msg}", u.where()
+        if len(runs) != 1 or runs[0].outcome != "return" or ex.fallbacks:
+            why = f"raises {runs[0].raised}" if len(runs) == 1 and runs[0].outcome == "raise" else f"{len(runs)} paths" if len(runs) != 1 else f"uninterpreted helper {sorted(ex.fallbacks)[0]}" if ex.fallbacks else runs[0].outcome
+            return "undecided", f"the graph construction on constants (level_limit={limit}) does not come out as one concrete run: {why}", ""
+        nodes, edges = runs[0].value
+        if not all(isinstance(n, str) for n in nodes) or not all(isinstance(u, str) and isinstance(v, str) for u, v, _h in edges):
+            return "undecided", "nodes of the constructed graph are not plain names", ""
+        known = {flat(m) for mod in SAMPLE_MODULES for m in [*parents(mod), mod]}
+        expected: set[tuple[str, str]] = set()
+        lenient: set[tuple[str, str]] = set()
+        for a, b in SAMPLE_IMPORTS:
+            u, v = flat(a), flat(b)
+            if u == v or u not in known or v not in known:
+                continue
+            if v in parents(u) or (parents(v) and parents(v)[-1] == u):
+                lenient.add((u, v))
+            else:
+                expected.add((u, v))
+        got = {(u, v) for u, v, hier in edges if not hier}
+        inputs = f"all_modules={SAMPLE_MODULES}, level_limit={limit}"
+        stray = [n for n in nodes if n not in known]
+        if stray:
+            return "bad", f"with {inputs} and an import of `{next((b for a, b in SAMPLE_IMPORTS if flat(b) == stray[0] or flat(a) == stray[0]), stray[0])}` the graph has the node `{stray[0]}`, which is not a module: imported names that are not modules become nodes", ""
+        missing = sorted(expected - got)
+        if missing:
+            a, b = next((a, b) for a, b in SAMPLE_IMPORTS if (flat(a), flat(b)) == missing[0])
+            marked = any((u, v) == missing[0] for u, v, hier in edges if hier)
+            return "bad", f"with {inputs} the import `{a}` -> `{b}` yields no import edge `{missing[0][0]}` -> `{missing[0][1]}`" + (" (the edge is there, marked as a parent-child edge)" if marked else "") + ": an import between two known, distinct modules disappears from the architecture", ""
+        extra = sorted(got - expected - lenient)
+        if extra:
+            return "bad", f"with {inputs} the graph has the import edge `{extra[0][0]}` -> `{extra[0][1]}` although no import record (after flattening) runs from the first to the second: an edge that no import statement accounts for", ""
+    return "ok", "", ""
 
 
 # --------------------------------------------------------------------------- R6
